@@ -1,17 +1,17 @@
 SPECIFICATION Spec
 CONSTANTS
-  Ids = {"A", "B", "C", "D"}
-  InitUp = {"A", "B", "C"}
-  Small = {"s1"}
-  Big = {"b1", "b2"}
+  Ids = {"A", "B", "C"}
+  InitUp = {"A", "B"}
+  Small = {}
+  Big = {}
   Fanout = 3
   TxLimit = 3
   SendList = "current"
-  OnTimeout = "ready"
+  OnTimeout = "stuck"
   OkayRequired = 3
-  Budgets = {0}
-  MaxStop = 1
-  MaxJoin = 1
+  Budgets = {0, 2, 6}
+  MaxStop = 2
+  MaxJoin = 2
   UOrder <- MCOrder
 VIEW View
 INVARIANTS Delivered Readiness Sane
